@@ -694,6 +694,10 @@ def division_axioms(lins):
             q = Lin.atom(a)
             out.append(q.scale(c) - x)                 # c*q <= x
             out.append(x - q.scale(c) - (c - 1))       # x <= c*q + c-1
+            m = ('%', a[1], a[2])
+            if m in atoms:                             # x == c*(x/c) + x%c  (C99 6.5.5p6, any sign)
+                e = x - q.scale(c) - Lin.atom(m)
+                out += [e, -e]
     return out
 
 
